@@ -45,6 +45,7 @@ class Cfg:
         self.inherit_bias = 0.6
         self.meta = True
         self.shared_field_names = 0.2   # field names reused across unrelated families
+        self.setop_under_collect = 0.3  # collect whose right side is a set operator over two fields
         for k, v in kw.items():
             if not hasattr(self, k):
                 raise TypeError(k)
@@ -140,7 +141,11 @@ class LangGen:
             sig = (nm, l, r)
             existing = [(a['name'], a['leftAsset'], a['rightAsset']) for a in spec['associations']]
             flipped = (nm, r, l)
-            if (sig in existing or flipped in existing) and rng.random() >= cfg.same_sig_dups:
+            if flipped in existing and l != r:
+                nm = 'Assoc%d' % i
+            elif sig in existing and rng.random() >= cfg.same_sig_dups:
+                # same name AND same end types (only the fields differ) is kept with
+                # probability same_sig_dups (C06 / C15: F26)
                 nm = 'Assoc%d' % i
             # class names <name>_<L>_<R> of duplicate-named associations must
             # not collide with a plain association name
@@ -355,7 +360,19 @@ class LangGen:
                 l = self._gen_nav(t, depth - 1, allow_var)
                 if l is None:
                     continue
-                r = self._gen_nav(l[1], depth - 1, allow_var)
+                r = None
+                if cfg.setops and rng.random() < cfg.setop_under_collect:
+                    # a set operator evaluated from every asset the left side reaches
+                    f2 = lang.fields_of(l[1])
+                    if f2:
+                        names = sorted(f2)
+                        a, b = rng.choice(names), rng.choice(names)
+                        ta, tb = f2[a][0][1], f2[b][0][1]
+                        if lang.lca(ta, tb) is not None:
+                            op = rng.choice(['intersection', 'difference', 'union'])
+                            r = ({'type': op, 'lhs': {'type': 'field', 'name': a}, 'rhs': {'type': 'field', 'name': b}}, lang.lca(ta, tb))
+                if r is None:
+                    r = self._gen_nav(l[1], depth - 1, allow_var)
                 if r is None:
                     continue
                 return {'type': 'collect', 'lhs': l[0], 'rhs': r[0]}, r[1]
